@@ -136,6 +136,27 @@ def mutate(draw, doc, spec, A, parse_value):
         return None
     if k == 5:  # change a variable's declared type
         vd = pick(A.VariableDefinition)
+        if vd is not None and draw(st.booleans()):
+            # toggle non-null at one level of the declared type: just inside / outside what the positions allow
+            levels = []
+            t = vd.type
+            while True:
+                inner = t.type if isinstance(t, A.NonNullType) else t
+                levels.append(isinstance(t, A.NonNullType))
+                if isinstance(inner, A.ListType):
+                    t = inner.type
+                else:
+                    base = inner
+                    break
+            i = draw(st.integers(0, len(levels) - 1))
+            levels[i] = not levels[i]
+            t = A.NonNullType(type=base) if levels[-1] else base
+            for nn in reversed(levels[:-1]):
+                t = A.ListType(type=t)
+                if nn:
+                    t = A.NonNullType(type=t)
+            vd.type = t
+            return "toggle-non-null-in-variable-type"
         if vd is not None:
             base = A.NamedType(name=A.Name(value=draw(st.sampled_from(voc["types"] + ["Unknown"]))))
             w = draw(st.integers(0, 3))
